@@ -321,6 +321,9 @@ def run(tier, V):
         for k in st:
             stats[k] += st[k]
         for key, what, wit in bad:
+            if key == 'probe:timeout':      # a loaded machine, not a verdict
+                V.inconclusive += 1
+                continue
             V.violation(key, what, wit)
     # (c) sets
     sjobs = []
